@@ -271,7 +271,9 @@ def ambiguous(m, pkt, e=None):
       z.append("pcp-untagged")
     elif e["dl_vlan"] is None and e["dl_vlan_pcp"] == 0:
       z.append("pcp-untagged")
-  for n in ("snap-oui", "vlan+llc", "arp-op>255", "arp-plen", "arp-odd", "truncated"):
+  # (SNAP with a non-zero OUI is NOT ambiguous: the SNAP protocol id counts only for OUI 0x000000,
+  #  every other 802.3 frame has dl_type 0x05ff -- openflow.h OFP_DL_TYPE_NOT_ETH_TYPE)
+  for n in ("vlan+llc", "arp-op>255", "arp-plen", "arp-odd", "truncated"):
     if n in notes:
       z.append(n)
   if e["dl_type"] == frames.ETH_IP and e["nw_proto"] not in (None, 1, 6, 17) and \
